@@ -264,4 +264,7 @@ def Grows (s s' : St) : Prop := s'.segFirst = s.segFirst ∧ s.last ≤ s'.last 
 theorem grows_trans (a b c : St) (h1 : Grows a b) (h2 : Grows b c) : Grows a c := by
   unfold Grows at *; omega
 
+/-- every index yielded by `cycle_forward` / `cycle_backward` over a non-empty slice is inside it -/
+theorem cycleIx_lt (len start ix : Nat) (h : 0 < len) : cycleIx len start ix < len := Nat.mod_lt _ h
+
 end FontVerif.LoopIterLemmas
